@@ -717,8 +717,93 @@ def run(ctx, report):
                              witness='parity(r32) with r32 = 0x100 must be 1')
             else:
                 R5.ok(inst, sample="'parity': eval_abs.parity and expression_helper.parity both count the bits of operand & 0xFF")
+        elif arith_family(op):
+            problems, n_vec = arith_denotation(ea, methods, fn0, op)
+            if problems:
+                R5.violation(inst, 'denot:%s:%s' % (op, problems[0][0]), '%s (operator %r): %s' % (fn0.name, op, '; '.join(p_[1] for p_ in problems[:3])), where(ea, fn0), witness=problems[0][2])
+            else:
+                R5.ok(inst, sample='%r: %s agrees with the integer definition on %d boundary vectors (evaluated)' % (op, fn0.name, n_vec))
         else:
             R5.ok(inst + ':not-judged', nontrivial=False)
+
+
+def arith_family(op):
+    import re
+    m = re.match(r'^(div|rem|idiv|irem)(8|16|32)$|^(umul|imul)(16|32)_(hi|lo)$', op)
+    if not m:
+        return None
+    if m.group(1):
+        return m.group(1), int(m.group(2))
+    return m.group(3) + '_' + m.group(5), int(m.group(4))
+
+
+def arith_denotation(ea, methods, fn, op):
+    """Evaluate a constant evaluator of the division / multiplication family from its source on boundary vectors and compare with the
+    integer definition of the IA-32 operation (quotient truncated toward zero, #DE conditions, halves of the double-width product)."""
+    from ..consteval import Evaluator as _Ev, NotConst as _NC, Obj as _Obj, Native as _Nat, PyRaise as _PR
+    kind, n = arith_family(op)
+    mask = (1 << n) - 1
+
+    def sgn(v, bits):
+        v &= (1 << bits) - 1
+        return v - (1 << bits) if v >> (bits - 1) else v
+
+    def ref(args):
+        if kind in ('div', 'rem'):
+            hi, lo, c = args
+            if c == 0:
+                return 'raise'
+            big = (hi << n) | lo
+            if big // c > mask:
+                return 'raise'
+            return (big // c) if kind == 'div' else (big % c)
+        if kind in ('idiv', 'irem'):
+            hi, lo, c = args
+            big, cs = sgn((hi << n) | lo, 2 * n), sgn(c, n)
+            if cs == 0:
+                return 'raise'
+            q = abs(big) // abs(cs)
+            if (big < 0) != (cs < 0):
+                q = -q
+            if not -(1 << (n - 1)) <= q <= (1 << (n - 1)) - 1:
+                return 'raise'
+            return (q & mask) if kind == 'idiv' else ((big - q * cs) & mask)
+        a, b = args
+        if kind.startswith('umul'):
+            p_ = a * b
+        else:
+            p_ = sgn(a, n) * sgn(b, n)
+        return ((p_ >> n) & mask) if kind.endswith('hi') else (p_ & mask)
+    vals = sorted(set([0, 1, 2, 3, 7, (1 << (n - 1)) - 1, 1 << (n - 1), mask, mask - 1, 0x55555555 & mask, (1 << (n - 1)) + 1]))
+    arity = 3 if kind in ('div', 'rem', 'idiv', 'irem') else 2
+    env = {'mymaxuint': {1: 1, 8: 0xFF, 16: 0xFFFF, 32: 0xFFFFFFFF, 64: 0xFFFFFFFFFFFFFFFF},
+           'uint64': _Nat(lambda v: int(v) & 0xFFFFFFFFFFFFFFFF), 'int64': _Nat(lambda v: sgn(int(v), 64)),
+           'uint32': _Nat(lambda v: int(v) & 0xFFFFFFFF), 'abs': _Nat(abs), 'int': _Nat(int)}
+    me = _Obj('self')
+    me.__dict__['_methods'] = dict(methods)
+    problems = []
+    n_vec = 0
+    import itertools
+    for args in itertools.product(vals, repeat=arity):
+        want = ref(args)
+        ev = _Ev(dict(env))
+        try:
+            got = ev.call_user(fn, [me, list(args), n, None])
+            if isinstance(got, int):
+                got &= mask
+        except _PR as e:
+            got = 'raise' if getattr(e, 'exc_name', None) == 'ValueError' or 'ValueError' in str(e) else 'raise:%s' % e
+        except _NC as e:
+            from ..core import AnalysisError as _AE
+            raise _AE('%s is outside the statically evaluable subset: %s' % (fn.name, e))
+        n_vec += 1
+        if got != want:
+            problems.append(('value', '%s%s of width %d gives %s, the integer definition gives %s' % (op, tuple(hex(a_) for a_ in args), n, hex(got) if isinstance(got, int) else got,
+                                                                                             hex(want) if isinstance(want, int) else want),
+                             'eval_expr(ExprOp(%r, %s)) on constants' % (op, ', '.join(hex(a_) for a_ in args))))
+            if len(problems) >= 3:
+                break
+    return problems, n_vec
 
 
 def compose_fold_rule(R, ea, ec):
@@ -811,6 +896,10 @@ def compose_fold_rule(R, ea, ec):
 
 
 MUTANTS = [
+    ('idiv-floor', 'miasmx/expression/expression_eval_abstract.py', "        q = abs(big) // abs(c)\n        if (big < 0) != (c < 0):\n            q = -q\n", "        q = big // c\n", 'C06.D5'),
+    ('div-no-overflow-check', 'miasmx/expression/expression_eval_abstract.py', "        ret_value = ((hi << op_size) + lo) // c\n        if ret_value > mymaxuint[op_size]:\n            raise ValueError('Divide Error')\n", "        ret_value = ((hi << op_size) + lo) // c\n", 'C06.D5'),
+    ('imulhi-unsigned', 'miasmx/expression/expression_eval_abstract.py', "'imul16_hi':eval_op_imulhi, 'imul32_hi':eval_op_imulhi,", "'imul16_hi':eval_op_mulhi, 'imul32_hi':eval_op_mulhi,", 'C06.D5'),
+    ('rcr-not-registered', 'miasmx/expression/expression_eval_abstract.py', "               '>>>c_rez':eval_op_rotr_wflag_rez,\n", "", 'C06.D1'),
     ('maxuint-no-1', 'miasmx/expression/expression_eval_abstract.py', "mymaxuint = {1:0x1,\n             8:0xFF,", "mymaxuint = {8:0xFF,", 'C06.D8'),
     ('mpool-raw-key', 'miasmx/expression/expression_eval_abstract.py', "        return expr_simp(a.arg)\n    def __contains__", "        return a.arg\n    def __contains__", 'C06.D7'),
     ('compose-no-const-slice', 'miasmx/expression/expression_eval_abstract.py', "            if isinstance(x, ExprSlice) and isinstance(x.arg, ExprInt):\n                return (int(x.arg.arg) >> x.start) & ((1<<(x.stop-x.start))-1)\n", "", 'C06.D6'),
